@@ -559,6 +559,21 @@ fn run_case_inner(_ctx: &Ctx, case: &Value, tag: usize, rep: &mut Report, mb: &m
                 let integer = rng.chance(1, 3);
                 // sometimes a narrow interval (emptiness must be detected at compile time)
                 let (a, b) = if rng.chance(1, 3) { let x = D::parse(&a).unwrap(); let w = [0i128, 1, 2, 5, 15][rng.below(5)]; (a.clone(), { let mut t = fmt_dec(x.mant + w, x.scale); if t.contains('.') { while t.ends_with('0') { t.pop(); } if t.ends_with('.') { t.pop(); } } if t == "-0" { "0".into() } else { t } }) } else { (a, b) };
+                // sometimes a large bound (1e5 .. 1e7) that is an exact decimal multiple of a fractional multipleOf, alone in a
+                // window narrower than one step: the f64 quotient bound / multipleOf is then not integral, and the
+                // emptiness decision depends on how its rounding error is tolerated
+                if rng.chance(1, 4) {
+                    let (mm, ms) = [(1i128, 1u32), (1, 3), (3, 1), (1, 2), (7, 1)][rng.below(5)];
+                    let q = [1_000_000i128, 10_000_000, 33_333_333, 100_000_001][rng.below(4)] + rng.range(0, 50) as i128;
+                    let trim = |mut t: String| { if t.contains('.') { while t.ends_with('0') { t.pop(); } if t.ends_with('.') { t.pop(); } } t };
+                    let a = trim(fmt_dec(q * mm, ms));
+                    // upper end: the same value, or half a step above it
+                    let b = if rng.chance(1, 2) { a.clone() } else { trim(fmt_dec(q * mm * 10 + mm * 5, ms + 1)) };
+                    let n = Num { integer: false, min: Some((a, rng.chance(1, 3))), max: Some((b, rng.chance(1, 3))), mult: Some(trim(fmt_dec(mm, ms))), min2: None, max2: None };
+                    rep.count("mult.large-bound-narrow-window");
+                    check_num(&w, &n, &mut rng, rep, case);
+                    continue;
+                }
                 let n = Num { integer, min: if rng.chance(2, 3) { Some((a, rng.chance(1, 3))) } else { None }, max: if rng.chance(2, 3) { Some((b, rng.chance(1, 3))) } else { None }, mult: Some(mult), min2: None, max2: None };
                 check_num(&w, &n, &mut rng, rep, case);
             }
